@@ -64,7 +64,8 @@ type World struct {
 	}
 	panics  []string // recovered from serve calls
 	udpCli  net.Conn
-	inh     int // handlers inside (harness view)
+	inh     int  // handlers inside (harness view)
+	stuck   bool // srv.lock found held with nothing running (reported)
 	entered int
 }
 
@@ -513,6 +514,51 @@ func (w *World) FixConfig() {
 	w.Srv.Listener, w.Srv.PacketConn = w.saved.l, w.saved.pc
 }
 
+// readLocked runs f -- a read of the server's state that takes srv.lock (VerifStarted, VerifConnCount) -- in such a way
+// that the harness itself cannot be stopped by a lock the server holds across a gate or across user code: f runs in a
+// goroutine of its own; it has returned, or the whole process is quiescent (seen twice) with f still waiting for the
+// lock, which then nothing running holds -- false.  The reader goroutine stays behind until the lock is released.
+func (w *World) readLocked(f func()) bool {
+	done := make(chan struct{})
+	go func() {
+		defer close(done)
+		f()
+	}()
+	for end := time.Now().Add(waitLong); time.Now().Before(end); {
+		select {
+		case <-done:
+			return true
+		case <-time.After(2 * time.Millisecond):
+		}
+		if q, _ := sched.Quiet(); q {
+			if q2, _ := sched.Quiet(); q2 {
+				select {
+				case <-done:
+					return true
+				default:
+					return false
+				}
+			}
+		}
+	}
+	return false
+}
+
+// lockStuck reports (once per world) that srv.lock is held although nothing runs.
+func (w *World) lockStuck(what string, cs map[string]interface{}) {
+	w.mu.Lock()
+	seen := w.stuck
+	w.stuck = true
+	w.mu.Unlock()
+	if seen {
+		return
+	}
+	_, snap := sched.Quiet()
+	cs["events"] = w.R.Events()
+	w.sum.Mis("server/lock-held-across-user-code", what+": srv.lock is held although every goroutine is parked at a gate, blocked in the transport or in user code (handler, NotifyStartedFunc)\n"+stacksOf(snap),
+		cs)
+}
+
 // Await waits for a result, or for the certainty that none will come (every goroutine blocked).
 func (w *World) Await(ch chan string) (string, bool) {
 	end := time.Now().Add(waitLong)
@@ -685,7 +731,10 @@ func (w *World) Census(sc interface{}, complete bool) {
 		w.sum.Mis("server/leak-goroutine:"+where, fmt.Sprintf("%d goroutine(s) of the server remain after shutdown completed, e.g. [%s] %s",
 			len(left), left[0].State, firstFrames(st)), map[string]interface{}{"scenario": sc, "events": w.R.Events()})
 	}
-	if n := w.Srv.VerifConnCount(); n != 0 {
+	n := 0
+	if !w.readLocked(func() { n = w.Srv.VerifConnCount() }) {
+		w.lockStuck("len(srv.conns) cannot be read after shutdown completed", map[string]interface{}{"scenario": sc})
+	} else if n != 0 {
 		w.sum.Mis("server/leak-conn", fmt.Sprintf("len(srv.conns) = %d after shutdown completed", n),
 			map[string]interface{}{"scenario": sc, "events": w.R.Events()})
 	}
